@@ -5,23 +5,45 @@ restrictions only (`T46GuardMin2` = (tick) + (root)).
 -/
 namespace CV.Core
 
+def Outcome.t46_isGen : Outcome → Bool
+  | .gen _ => true
+  | _ => false
+
 def Frame.t46_kfree : Frame → Bool
   | .ptOwn .. => false
   | .ptParent .. => false
+  | .hLoop _ _ _ _ o => !o.t46_isGen
+  | .hAfter _ _ _ _ o => !o.t46_isGen
+  | .hApply _ _ _ _ o => !o.t46_isGen
   | _ => true
 
+/-- a handler result that is a generator is a fresh user generator, never a carrier -/
+def T46OutK (s : St) (o : Outcome) : Prop := ∀ g, o = .gen g → s.t46_nc g
+
 def T46FrameK (s : St) : Frame → Prop
-  | .ptOwn _ t => t.parent = none ∧ t.e < s.evs.length
-  | .ptParent _ t _ _ => t.e < s.evs.length
+  | .ptOwn _ t => t.parent = none ∧ t.e < s.evs.length ∧ s.t46_nc t.g
+  | .ptParent _ t p _ => t.e < s.evs.length ∧ s.t46_nc p ∧ ∀ p', t.parent = some p' → s.t46_nc p'
+  | .hLoop _ _ _ _ o => T46OutK s o
+  | .hAfter _ _ _ _ o => T46OutK s o
+  | .hApply _ _ _ _ o => T46OutK s o
   | _ => True
 
-theorem T46FrameK.of_kfree {s : St} {f : Frame} (h : f.t46_kfree = true) : T46FrameK s f := by
-  cases f <;> first | trivial | cases h
+theorem T46OutK.of_not {s : St} {o : Outcome} (h : o.t46_isGen = false) : T46OutK s o := by
+  intro g hg; subst hg; cases h
 
-theorem T46FrameK.mono {s s' : St} (h : s.evs.length ≤ s'.evs.length) {f : Frame} (hf : T46FrameK s f) : T46FrameK s' f := by
+theorem T46FrameK.of_kfree {s : St} {f : Frame} (h : f.t46_kfree = true) : T46FrameK s f := by
+  cases f <;> first | trivial | cases h | exact T46OutK.of_not (by simpa [Frame.t46_kfree] using h)
+
+theorem T46OutK.mono {s s' : St} (h : St.T46K s s') {o : Outcome} (ho : T46OutK s o) : T46OutK s' o :=
+  fun g hg => (ho g hg).mono h
+
+theorem T46FrameK.mono {s s' : St} (h : St.T46K s s') {f : Frame} (hf : T46FrameK s f) : T46FrameK s' f := by
   cases f <;> first | trivial | skip
-  case ptOwn r t => exact ⟨hf.1, Nat.lt_of_lt_of_le hf.2 h⟩
-  case ptParent r t p v => exact Nat.lt_of_lt_of_le hf h
+  case ptOwn r t => exact ⟨hf.1, Nat.lt_of_lt_of_le hf.2.1 h.evs, hf.2.2.mono h⟩
+  case ptParent r t p v => exact ⟨Nat.lt_of_lt_of_le hf.1 h.evs, hf.2.1.mono h, fun p' hp' => (hf.2.2 p' hp').mono h⟩
+  case hLoop r e hs err o => exact T46OutK.mono h hf
+  case hAfter r e hs err o => exact T46OutK.mono h hf
+  case hApply r e hs err o => exact T46OutK.mono h hf
 
 def T46KfOk (k : List Frame) (c' : Cfg) : Prop := ∃ fs, c'.stack = fs ++ k ∧ fs.all Frame.t46_kfree = true
 
@@ -34,19 +56,30 @@ macro "t46f_leaf" : tactic =>
     | exact ⟨[], rfl, rfl⟩
     | (refine ⟨_, rfl, ?_⟩
        first
-       | (simp [Frame.t46_kfree]; done)
+       | (simp [Frame.t46_kfree, Outcome.t46_isGen]; done)
        | (simp only [List.all_cons, List.all_nil, t46_actStep_call_kfree _ _ _ _ (by assumption)]
-          simp [Frame.t46_kfree])))
+          simp [Frame.t46_kfree, Outcome.t46_isGen])))
 
 macro "t46f" ids:ident+ : tactic =>
   `(tactic| (unfold T46KfOk $[$ids]*; (try dsimp only); (repeat' split); all_goals t46f_leaf))
 
 theorem Cfg.pop_t46f (c : Cfg) (k : List Frame) (s : St) : T46KfOk k (c.pop k s) := ⟨[], rfl, rfl⟩
 
-theorem t46_stepFrame_kf (c : Cfg) (k : List Frame) (f : Frame) (hf : ∀ r t, f ≠ .ptBody r t) :
+/-- the frames handled separately: they push task frames or handler-loop frames carrying a handler result -/
+def Frame.t46_special : Frame → Bool
+  | .ptBody .. => true
+  | .hLoop .. => true
+  | .hAfter .. => true
+  | .hApply .. => true
+  | _ => false
+
+theorem t46_stepFrame_kf (c : Cfg) (k : List Frame) (f : Frame) (hf : f.t46_special = false) :
     T46KfOk k (stepFrame c k f) := by
   cases f <;> dsimp only [stepFrame]
-  case ptBody r t => exact absurd rfl (hf r t)
+  case ptBody r t => cases hf
+  case hLoop a b d e g => cases hf
+  case hAfter a b d e g => cases hf
+  case hApply r e rest err v => cases hf
   case effectDone r e a => (t46f Cfg.effectDone)
   case eventDone r e a => (t46f Cfg.eventDone)
   case updateRoot a b => (t46f Cfg.updateRoot)
@@ -66,11 +99,8 @@ theorem t46_stepFrame_kf (c : Cfg) (k : List Frame) (f : Frame) (hf : ∀ r t, f
   case ptParent r t p v => (t46f Cfg.ptParent Cfg.contStop Cfg.contError)
   case ptFin a b => (t46f Cfg.ptFin)
   case dispatcher a b d => (t46f Cfg.dispatcher)
-  case hLoop a b d e g => (t46f Cfg.hLoop)
   case invoke a b d => (t46f Cfg.invoke Cfg.invokeUser)
   case invokeFin a b => (t46f Cfg.invokeFin)
-  case hAfter a b d e g => (t46f Cfg.hAfter)
-  case hApply r e rest err v => (t46f Cfg.hApply)
   case dispFin a b d => (t46f Cfg.dispFin)
   case dispatchLoop a => (t46f Cfg.dispatchLoop)
   case flush a => (t46f Cfg.flush)
@@ -102,84 +132,233 @@ theorem t46_unwind_kf (c : Cfg) (k : List Frame) (ex : Exn) (f : Frame) : T46KfO
 theorem t46_unwind_K (c : Cfg) (k : List Frame) (ex : Exn) (f : Frame) : St.T46K c.st (unwind c k ex f).st := by
   cases f <;> (dsimp only [unwind]; t46k)
 
-/-- what `ptBody` pushes: plain frames, `.ptParent r t …`, or `.ptOwn r t` for a task whose generator is a user generator -/
+theorem Cfg.contStop_t46f (c : Cfg) (k : List Frame) (s : St) (r : Nat) (t : Task) : T46KfOk k (c.contStop k s r t) := by
+  t46f Cfg.contStop
+theorem Cfg.contError_t46f (c : Cfg) (k : List Frame) (s : St) (r : Nat) (t : Task) (b : Bool) :
+    T46KfOk k (c.contError k s r t b) := by
+  t46f Cfg.contError
+
+/-- description of the frames an arm pushes: each is harmless, or one of the listed kinds -/
+def T46Pushed (P : Frame → Prop) (k : List Frame) (c' : Cfg) : Prop :=
+  ∃ fs, c'.stack = fs ++ k ∧ ∀ g ∈ fs, g.t46_kfree = true ∨ P g
+
+theorem T46KfOk.pushed {P : Frame → Prop} {k : List Frame} {c' : Cfg} (h : T46KfOk k c') : T46Pushed P k c' := by
+  obtain ⟨fs, h1, h2⟩ := h
+  exact ⟨fs, h1, fun g hg => Or.inl (List.all_eq_true.1 h2 g hg)⟩
+
+theorem T46Pushed.two {P : Frame → Prop} {k : List Frame} {c : Cfg} (s : St) (a b : Frame) (ha : a.t46_kfree = true) (hb : P b) :
+    T46Pushed P k (c.goto k s [a, b]) :=
+  ⟨[a, b], rfl, fun g hg => by
+    simp only [List.mem_cons, List.not_mem_nil, or_false] at hg
+    rcases hg with h | h
+    · subst h; exact Or.inl ha
+    · subst h; exact Or.inr hb⟩
+
+theorem T46Pushed.one {P : Frame → Prop} {k : List Frame} {c : Cfg} (s : St) (a : Frame) (ha : a.t46_kfree = true ∨ P a) :
+    T46Pushed P k (c.goto k s [a]) :=
+  ⟨[a], rfl, fun g hg => by
+    simp only [List.mem_cons, List.not_mem_nil, or_false] at hg
+    subst hg; exact ha⟩
+
+/-- what `ptBody` pushes: harmless frames, `.ptParent r t p …` with `p` the task's parent, or `.ptOwn r t` for a task whose
+    generator is a user generator -/
 theorem Cfg.t46_ptBody_frames (c : Cfg) (k : List Frame) (r : Nat) (t : Task) :
-    ∃ fs, (c.ptBody k r t).stack = fs ++ k ∧ ∀ g ∈ fs, g.t46_kfree = true ∨ (∃ p v, g = .ptParent r t p v) ∨
-      (g = .ptOwn r t ∧ (c.st.gen t.g).t46_carrier = false) := by
+    T46Pushed (fun g => (∃ p v, g = .ptParent r t p v ∧ t.parent = some p) ∨ (g = .ptOwn r t ∧ c.st.t46_nc t.g)) k
+      (c.ptBody k r t) := by
   unfold Cfg.ptBody
   split
   · rename_i hg
-    exact ⟨[.stepGen t.g, .ptOwn r t], rfl, fun g hg' => by
-      simp only [List.mem_cons, List.not_mem_nil, or_false] at hg'
-      rcases hg' with h | h
-      · subst h; exact Or.inl rfl
-      · subst h; exact Or.inr (Or.inr ⟨rfl, by rw [hg]; rfl⟩)⟩
+    exact T46Pushed.two _ _ _ rfl (Or.inr ⟨rfl, St.t46_gen_lt_of_user c.st t.g hg, by rw [hg]; rfl⟩)
   · unfold Cfg.ptBodyWait
     dsimp only
     split
-    · obtain ⟨fs, h1, h2⟩ := Cfg.contError_t46s c k _ r t false
-      exact ⟨fs, h1, fun g hg => Or.inl (by have := h2 g hg; cases g <;> first | rfl | cases this)⟩
+    · exact (Cfg.contError_t46f ..).pushed
     · split
-      · split
-        · exact ⟨[.stepGen _, .ptParent r t _ false], rfl, fun g hg' => by
-            simp only [List.mem_cons, List.not_mem_nil, or_false] at hg'
-            rcases hg' with h | h
-            · subst h; exact Or.inl rfl
-            · subst h; exact Or.inr (Or.inl ⟨_, _, rfl⟩)⟩
-        · exact ⟨[], rfl, fun _ h => by cases h⟩
-      · obtain ⟨fs, h1, h2⟩ := Cfg.contStop_t46s c k _ r t
-        exact ⟨fs, h1, fun g hg => Or.inl (by have := h2 g hg; cases g <;> first | rfl | cases this)⟩
+      · rename_i src p hev hpar
+        split
+        · exact T46Pushed.two _ _ _ rfl (Or.inl ⟨p, false, rfl, hpar⟩)
+        · exact (Cfg.pop_t46f ..).pushed
+      · exact (Cfg.contStop_t46f ..).pushed
   · unfold Cfg.ptBodyExc
     split
-    · obtain ⟨fs, h1, h2⟩ := Cfg.contStop_t46s c k _ r t
-      exact ⟨fs, h1, fun g hg => Or.inl (by have := h2 g hg; cases g <;> first | rfl | cases this)⟩
+    · exact (Cfg.contStop_t46f ..).pushed
     · dsimp only
       split
-      · split
+      · rename_i p hpar
+        split
         · split
-          · exact ⟨[.stepGen _, .ptParent r t _ true], rfl, fun g hg' => by
-              simp only [List.mem_cons, List.not_mem_nil, or_false] at hg'
-              rcases hg' with h | h
-              · subst h; exact Or.inl rfl
-              · subst h; exact Or.inr (Or.inl ⟨_, _, rfl⟩)⟩
-          · obtain ⟨fs, h1, h2⟩ := Cfg.contError_t46s c k _ r t true
-            exact ⟨fs, h1, fun g hg => Or.inl (by have := h2 g hg; cases g <;> first | rfl | cases this)⟩
-        · exact ⟨[], rfl, fun _ h => by cases h⟩
-      · obtain ⟨fs, h1, h2⟩ := Cfg.contError_t46s c k _ r t false
-        exact ⟨fs, h1, fun g hg => Or.inl (by have := h2 g hg; cases g <;> first | rfl | cases this)⟩
-  · obtain ⟨fs, h1, h2⟩ := Cfg.contStop_t46s c k _ r t
-    exact ⟨fs, h1, fun g hg => Or.inl (by have := h2 g hg; cases g <;> first | rfl | cases this)⟩
+          · exact T46Pushed.two _ _ _ rfl (Or.inl ⟨p, true, rfl, hpar⟩)
+          · exact (Cfg.contError_t46f ..).pushed
+        · exact (Cfg.pop_t46f ..).pushed
+      · exact (Cfg.contError_t46f ..).pushed
+  · exact (Cfg.contStop_t46f ..).pushed
   · split
-    · obtain ⟨fs, h1, h2⟩ := Cfg.contStop_t46s c k _ r t
-      exact ⟨fs, h1, fun g hg => Or.inl (by have := h2 g hg; cases g <;> first | rfl | cases this)⟩
-    · exact ⟨[], rfl, fun _ h => by cases h⟩
+    · exact (Cfg.contStop_t46f ..).pushed
+    · exact (Cfg.pop_t46f ..).pushed
+
+/-- the handler loop keeps its handler result; `hAfter` may take it from the return register -/
+theorem Cfg.t46_hLoop_frames (c : Cfg) (k : List Frame) (r e : Nat) (hs : List Nat) (err : Bool) (st : Outcome) :
+    T46Pushed (fun g => ∃ hs', g = .hAfter r e hs' err st) k (c.hLoop k r e hs err st) := by
+  unfold Cfg.hLoop
+  split
+  · exact T46Pushed.one _ _ (Or.inl rfl)
+  · exact T46Pushed.two _ _ _ rfl ⟨_, rfl⟩
+
+theorem Cfg.t46_hAfter_frames (c : Cfg) (k : List Frame) (r e : Nat) (rest : List Nat) (err : Bool) (st : Outcome) :
+    T46Pushed (fun g => ∃ err' o, g = .hApply r e rest err' o ∧ (o = st ∨ o = c.ret.outcome)) k
+      (c.hAfter k r e rest err st) := by
+  unfold Cfg.hAfter
+  split
+  · exact T46Pushed.two _ _ _ rfl ⟨_, _, rfl, Or.inl rfl⟩
+  · exact T46Pushed.two _ _ _ rfl ⟨_, _, rfl, Or.inl rfl⟩
+  · exact T46Pushed.one _ _ (Or.inl rfl)
+  · exact T46Pushed.one _ _ (Or.inl rfl)
+  · exact T46Pushed.one _ _ (Or.inl rfl)
+  · rename_i g hg
+    exact T46Pushed.one _ _ (Or.inr ⟨_, _, rfl, Or.inr hg.symm⟩)
+
+theorem Cfg.t46_hApply_frames (c : Cfg) (k : List Frame) (r e : Nat) (rest : List Nat) (err : Bool) (v : Outcome) :
+    T46Pushed (fun g => g = .hLoop r e rest err v) k (c.hApply k r e rest err v) := by
+  unfold Cfg.hApply
+  dsimp only
+  split
+  · exact T46Pushed.one _ _ (Or.inl rfl)
+  · exact T46Pushed.one _ _ (Or.inr rfl)
+
+/-! ## the return register -/
+
+/-- the return register is unchanged, or holds no generator, or holds a fresh non-carrier generator -/
+def T46RetOk (c c' : Cfg) : Prop := c'.ret = c.ret ∨ T46OutK c'.st c'.ret.outcome
+
+theorem t46_actStep_out_notgen (s : St) (ctx : HCtx) (a : Act) (o : Outcome) (h : (actStep s ctx a).kind = .out o) :
+    o.t46_isGen = false := by
+  cases a <;> simp only [actStep] at h <;> first | (cases h; rfl) | (split at h <;> cases h <;> rfl) | cases h
+
+macro "t46r_leaf" : tactic =>
+  `(tactic| first
+    | exact Or.inl rfl
+    | (refine Or.inr (T46OutK.of_not ?_); first | rfl | exact t46_actStep_out_notgen _ _ _ _ (by assumption)))
+
+macro "t46r" ids:ident+ : tactic =>
+  `(tactic| (unfold T46RetOk $[$ids]*; (try dsimp only); (repeat' split); all_goals t46r_leaf))
+
+theorem St.t46_onWaitEvent_notgen (s : St) (w e : Nat) : (s.onWaitEvent w e).1.t46_isGen = false := by
+  unfold St.onWaitEvent; dsimp only; (repeat' split) <;> rfl
+theorem St.t46_onWaitDone_notgen (s : St) (w e : Nat) : (s.onWaitDone w e).1.t46_isGen = false := by
+  unfold St.onWaitDone; dsimp only; (repeat' split) <;> rfl
+theorem St.t46_onWaitTick_notgen (s : St) (w : Nat) : (s.onWaitTick w).1.t46_isGen = false := by
+  unfold St.onWaitTick; dsimp only; (repeat' split) <;> rfl
+
+theorem Cfg.t46_invoke_ret (c : Cfg) (k : List Frame) (r h e : Nat) : T46RetOk c (c.invoke k r h e) := by
+  unfold Cfg.invoke
+  dsimp only
+  generalize (if ((c.st.handler h).kind.code != 0) = true then
+      c.st.logE (Entry.hinv e (c.st.handler h).kind.code (hkey c.st (c.st.handler h))) else c.st) = S
+  split
+  · unfold Cfg.invokeUser
+    dsimp only
+    split
+    · refine Or.inr fun g hg => ?_
+      simp only [Cfg.popRet_ret, Ret.outcome] at hg
+      cases hg
+      simp only [Cfg.popRet_st]
+      refine ⟨?_, ?_⟩
+      · show _ < (_ ++ [_]).length
+        simp [St.logE]
+      · have : ∀ (u : St) (x : GenRec) (y : Entry), ((u.addGen x).logE y).gen u.gens.length = x :=
+          fun u x y => St.t46_gen_addGen_eq u x
+        rw [this]; rfl
+    · exact Or.inl rfl
+  · exact Or.inl rfl
+  · exact Or.inr (T46OutK.of_not (St.t46_onWaitEvent_notgen ..))
+  · exact Or.inr (T46OutK.of_not (St.t46_onWaitDone_notgen ..))
+  · exact Or.inr (T46OutK.of_not (St.t46_onWaitTick_notgen ..))
+  · exact Or.inr (T46OutK.of_not rfl)
+  · split
+    · exact Or.inr (T46OutK.of_not rfl)
+    · exact Or.inl rfl
+  · exact Or.inr (T46OutK.of_not rfl)
+
+theorem t46_stepFrame_ret (c : Cfg) (k : List Frame) (f : Frame) : T46RetOk c (stepFrame c k f) := by
+  cases f <;> dsimp only [stepFrame]
+  case invoke a b d => exact Cfg.t46_invoke_ret ..
+  case effectDone r e a => (t46r Cfg.effectDone)
+  case eventDone r e a => (t46r Cfg.eventDone)
+  case updateRoot a b => (t46r Cfg.updateRoot)
+  case register a b => (t46r Cfg.register)
+  case registerFin a => (t46r Cfg.registerFin)
+  case prepUnregFin a => (t46r Cfg.prepUnregFin)
+  case stopMgr a b => (t46r Cfg.stopMgr)
+  case ticks a b => (t46r Cfg.ticks)
+  case stopFin a => (t46r Cfg.stopFin)
+  case timerNew a => (t46r Cfg.timerNew)
+  case acts a b => (t46r Cfg.acts)
+  case doFin a => (t46r Cfg.doFin)
+  case drainQ a => (t46r Cfg.drainQ)
+  case stepGen a => (t46r Cfg.stepGen)
+  case processTask r t => (t46r Cfg.processTask)
+  case ptBody r t => (t46r Cfg.ptBody Cfg.ptBodyWait Cfg.ptBodyExc Cfg.contStop Cfg.contError)
+  case ptOwn r t => (t46r Cfg.ptOwn Cfg.contStop Cfg.contError)
+  case ptParent r t p v => (t46r Cfg.ptParent Cfg.contStop Cfg.contError)
+  case ptFin a b => (t46r Cfg.ptFin)
+  case dispatcher a b d => (t46r Cfg.dispatcher)
+  case hLoop a b d e g => (t46r Cfg.hLoop)
+  case invokeFin a b => (t46r Cfg.invokeFin)
+  case hAfter a b d e g => (t46r Cfg.hAfter)
+  case hApply r e rest err v => (t46r Cfg.hApply)
+  case dispFin a b d => (t46r Cfg.dispFin)
+  case dispatchLoop a => (t46r Cfg.dispatchLoop)
+  case flush a => (t46r Cfg.flush)
+  case flushFin a b => (t46r Cfg.flushFin)
+  case tick a => (t46r Cfg.tick)
+  case taskLoop a b => (t46r Cfg.taskLoop)
+  case tickFin a b => (t46r Cfg.tickFin)
+  case tickGen a => (t46r Cfg.tickGen)
+  case run a => (t46r Cfg.run)
+  case runLoop a => (t46r Cfg.runLoop)
+  case runCatch a => exact Or.inl rfl
+  case runRethrow a => (t46r Cfg.runRethrow)
+  case runFin a => (t46r Cfg.runFin)
+
+theorem t46_unwind_ret (c : Cfg) (k : List Frame) (ex : Exn) (f : Frame) : (unwind c k ex f).ret = c.ret := by
+  cases f <;> dsimp only [unwind] <;> first | rfl | (unfold Cfg.runCatchExn; split <;> rfl)
 
 /-! ## the invariant -/
 
 structure T46TP (c : Cfg) : Prop where
   tasks : ∀ x t, t ∈ (c.st.comp x).tasks → c.st.T46TaskOk t
-  waits : ∀ w, (c.st.wait w).started = true → (c.st.wait w).taskEvent < c.st.evs.length
+  waits : ∀ w, (c.st.wait w).started = true → c.st.T46WaitOk (c.st.wait w)
   frames : ∀ f ∈ c.stack, T46FrameK c.st f
+  ret : T46OutK c.st c.ret.outcome
 
 theorem T46TP.next {c c' : Cfg} (h : T46TP c) {f : Frame} {k : List Frame} (hs : c.stack = f :: k)
-    (hK : St.T46K c.st c'.st) (fs : List Frame) (hfs : c'.stack = fs ++ k) (hnew : ∀ g ∈ fs, T46FrameK c'.st g) :
-    T46TP c' := by
-  refine ⟨fun x t ht => ?_, fun w hw => ?_, fun g hg => ?_⟩
+    (hK : St.T46K c.st c'.st) (fs : List Frame) (hfs : c'.stack = fs ++ k) (hnew : ∀ g ∈ fs, T46FrameK c'.st g)
+    (hret : T46RetOk c c') : T46TP c' := by
+  refine ⟨fun x t ht => ?_, fun w hw => ?_, fun g hg => ?_, ?_⟩
   · rcases hK.tasks x t ht with h1 | h1
     · exact (h.tasks x t h1).mono hK
     · exact h1
-  · rcases hK.waits w hw with ⟨h1, h2⟩ | h1
-    · rw [h2]; exact Nat.lt_of_lt_of_le (h.waits w h1) hK.evs
+  · rcases hK.waits w hw with ⟨h1, h2, h3⟩ | h1
+    · have := (h.waits w h1).mono hK
+      unfold St.T46WaitOk at this ⊢
+      rw [h2, h3]; exact this
     · exact h1
   · rw [hfs] at hg
     rcases List.mem_append.1 hg with h1 | h1
     · exact hnew g h1
-    · exact (h.frames g (by rw [hs]; simp [h1])).mono hK.evs
+    · exact (h.frames g (by rw [hs]; simp [h1])).mono hK
+  · rcases hret with h1 | h1
+    · rw [h1]; exact h.ret.mono hK
+    · exact h1
 
-theorem T46TP.ofKf {c c' : Cfg} (h : T46TP c) {f : Frame} {k : List Frame} (hs : c.stack = f :: k)
-    (hK : St.T46K c.st c'.st) (hkf : T46KfOk k c') : T46TP c' := by
-  obtain ⟨fs, hfs, hall⟩ := hkf
-  exact h.next hs hK fs hfs (fun g hg => T46FrameK.of_kfree (List.all_eq_true.1 hall g hg))
+theorem T46TP.ofPushed {P : Frame → Prop} {c c' : Cfg} (h : T46TP c) {f : Frame} {k : List Frame} (hs : c.stack = f :: k)
+    (hK : St.T46K c.st c'.st) (hp : T46Pushed P k c') (hP : ∀ g, P g → T46FrameK c'.st g) (hret : T46RetOk c c') :
+    T46TP c' := by
+  obtain ⟨fs, hfs, hall⟩ := hp
+  refine h.next hs hK fs hfs (fun g hg => ?_) hret
+  rcases hall g hg with h1 | h1
+  · exact T46FrameK.of_kfree h1
+  · exact hP g h1
 
 /-- `St.T46K` for every arm, given the facts about the top frame that the invariants provide -/
 theorem t46_stepFrame_K {n0 : Nat} {c : Cfg} (hinv : T46Inv c) (htp : T46TP c) (hw : W6CInv n0 c) (hq : T46RQ c)
@@ -191,8 +370,8 @@ theorem t46_stepFrame_K {n0 : Nat} {c : Cfg} (hinv : T46Inv c) (htp : T46TP c) (
     have hsh := hinv.shape
     rw [hs] at hsh
     exact Cfg.t46_ptBody_K c k r t (htp.tasks r t hsh.1.2).1
-  case ptOwn r t => exact Cfg.t46_ptOwn_K c k r t htop.2
-  case ptParent r t p v => exact Cfg.t46_ptParent_K c k r t p v htop
+  case ptOwn r t => exact Cfg.t46_ptOwn_K c k r t htop.2.1 htop.2.2
+  case ptParent r t p v => exact Cfg.t46_ptParent_K c k r t p v htop.1 htop.2.1
   case hApply r e rest err v => exact Cfg.t46_hApply_K c k r e rest err v (hq.gen r e rest err v k hs)
   case invoke r h e =>
     refine Cfg.t46_invoke_K c k r h e (fun w hk => ?_) (fun w hk => ?_)
@@ -204,52 +383,84 @@ theorem t46_stepFrame_K {n0 : Nat} {c : Cfg} (hinv : T46Inv c) (htp : T46TP c) (
     · exact htp.waits w (hw.t46_started h w (Or.inr hk))
   all_goals (dsimp only [stepFrame]; t46k)
 
+/-- `St.T46K` for every step -/
+theorem t46_step_K {n0 : Nat} {c : Cfg} (hinv : T46Inv c) (htp : T46TP c) (hw : W6CInv n0 c) (hq : T46RQ c) :
+    St.T46K c.st (step c).st := by
+  cases hs : c.stack with
+  | nil => rw [step_nil c hs]; exact St.T46K.refl _
+  | cons f k =>
+    cases hx : c.exn with
+    | some ex => rw [step_cons_exn c f k ex hs hx]; exact t46_unwind_K c k ex f
+    | none => rw [step_cons c f k hs hx]; exact t46_stepFrame_K hinv htp hw hq k f hs
+
 theorem t46_step_tp {n0 : Nat} (c : Cfg) (hinv : T46Inv c) (htp : T46TP c) (hw : W6CInv n0 c) (hq : T46RQ c) :
     T46TP (step c) := by
   cases hs : c.stack with
   | nil => rw [step_nil c hs]; exact htp
   | cons f k =>
+    have htop : T46FrameK c.st f := htp.frames f (by rw [hs]; simp)
     cases hx : c.exn with
     | some ex =>
       rw [step_cons_exn c f k ex hs hx]
-      exact htp.ofKf hs (t46_unwind_K c k ex f) (t46_unwind_kf c k ex f)
+      exact htp.ofPushed (P := fun _ => False) hs (t46_unwind_K c k ex f) (t46_unwind_kf c k ex f).pushed
+        (fun _ h => h.elim) (Or.inl (t46_unwind_ret c k ex f))
     | none =>
       rw [step_cons c f k hs hx]
       have hK := t46_stepFrame_K hinv htp hw hq k f hs
-      by_cases hb : ∃ r t, f = .ptBody r t
-      · obtain ⟨r, t, hf⟩ := hb
-        subst hf
-        obtain ⟨fs, hfs, hall⟩ := Cfg.t46_ptBody_frames c k r t
-        have hsh := hinv.shape
-        rw [hs] at hsh
-        have hok := htp.tasks r t hsh.1.2
-        refine htp.next hs hK fs hfs (fun g hg => ?_)
-        rcases hall g hg with h1 | ⟨p, v, h1⟩ | ⟨h1, h2⟩
-        · exact T46FrameK.of_kfree h1
-        · subst h1; exact Nat.lt_of_lt_of_le hok.1 hK.evs
-        · subst h1
-          refine ⟨?_, Nat.lt_of_lt_of_le hok.1 hK.evs⟩
-          cases hp : t.parent with
-          | none => rfl
-          | some p =>
-            have := (hok.2 (by rw [hp]; rfl)).2
-            rw [h2] at this; cases this
-      · exact htp.ofKf hs hK (t46_stepFrame_kf c k f (fun r t hf => hb ⟨r, t, hf⟩))
+      have hret := t46_stepFrame_ret c k f
+      by_cases hsp : f.t46_special = true
+      · cases f <;> first | (simp [Frame.t46_special] at hsp; done) | skip
+        case ptBody r t =>
+          have hsh := hinv.shape
+          rw [hs] at hsh
+          have hok := htp.tasks r t hsh.1.2
+          refine htp.ofPushed hs hK (Cfg.t46_ptBody_frames c k r t) (fun g hg => ?_) hret
+          rcases hg with ⟨p, v, h1, hpar⟩ | ⟨h1, h2⟩
+          · subst h1
+            exact ⟨Nat.lt_of_lt_of_le hok.1 hK.evs, (hok.2.2 p hpar).mono hK, fun p' hp' => (hok.2.2 p' hp').mono hK⟩
+          · subst h1
+            refine ⟨?_, Nat.lt_of_lt_of_le hok.1 hK.evs, h2.mono hK⟩
+            cases hp : t.parent with
+            | none => rfl
+            | some p =>
+              have := (hok.2.1 (by rw [hp]; rfl)).2
+              rw [h2.2] at this; cases this
+        case hLoop r e hh err st =>
+          refine htp.ofPushed hs hK (Cfg.t46_hLoop_frames c k r e hh err st) (fun g hg => ?_) hret
+          obtain ⟨hs', h1⟩ := hg
+          subst h1
+          exact T46OutK.mono hK htop
+        case hAfter r e rest err st =>
+          refine htp.ofPushed hs hK (Cfg.t46_hAfter_frames c k r e rest err st) (fun g hg => ?_) hret
+          obtain ⟨err', o, h1, h2⟩ := hg
+          subst h1
+          rcases h2 with h2 | h2
+          · subst h2; exact T46OutK.mono hK htop
+          · subst h2; exact T46OutK.mono hK htp.ret
+        case hApply r e rest err v =>
+          refine htp.ofPushed hs hK (Cfg.t46_hApply_frames c k r e rest err v) (fun g hg => ?_) hret
+          subst hg
+          exact T46OutK.mono hK htop
+      · exact htp.ofPushed (P := fun _ => False) hs hK
+          (t46_stepFrame_kf c k f (by cases h : f.t46_special <;> simp_all)).pushed (fun _ h => h.elim) hret
 
 /-- clause (own) -/
 theorem T46TP.own {c : Cfg} (h : T46TP c) (r : Nat) (t : Task) (k : List Frame) (hs : c.stack = .ptOwn r t :: k) :
-    t.parent = none ∧ t.e < c.st.evs.length :=
-  h.frames (.ptOwn r t) (by rw [hs]; simp)
+    t.parent = none ∧ t.e < c.st.evs.length := by
+  have := h.frames (.ptOwn r t) (by rw [hs]; simp)
+  exact ⟨this.1, this.2.1⟩
 
 theorem t46_start_tp (s : St) (ht : ∀ x t, t ∈ (s.comp x).tasks → s.T46TaskOk t)
-    (hw : ∀ w, (s.wait w).started = true → (s.wait w).taskEvent < s.evs.length) (d : Nat) (tape : List Entry) (op : ExtOp) :
+    (hw : ∀ w, (s.wait w).started = true → s.T46WaitOk (s.wait w)) (d : Nat) (tape : List Entry) (op : ExtOp) :
     T46TP (startOf (envChange s d tape) op) := by
   have hst : (startOf (envChange s d tape) op).st = envChange s d tape := by cases op <;> rfl
-  refine ⟨?_, ?_, ?_⟩
+  refine ⟨?_, ?_, ?_, ?_⟩
   · rw [hst]; exact ht
   · rw [hst]; exact hw
   · cases op <;> (intro g hg; simp [startOf, startDo, startTick, startFlush, startRun, Cfg.start] at hg) <;>
       first | (rcases hg with h1 | h1 <;> subst h1 <;> trivial) | (subst hg; trivial)
+  · have : (startOf (envChange s d tape) op).ret = .none := by cases op <;> rfl
+    rw [this]; intro g hg; cases hg
 
 /-! ## sessions guarded by the two real restrictions -/
 
